@@ -7,6 +7,8 @@ import ParryModel.C12.Theorems5
 import Mathlib.Analysis.Real.Sqrt
 /-!
 # C12 theorems (first pass): the argmax primitive of the hull algorithms, and certificate soundness.
+The theorems about the 2-D quickhull algorithm itself are in `Theorems2.lean` … `Theorems5.lean` (imported here) and, for the
+parts that need `support_point_id_max` and the order laws, in the second half of this file.
 -/
 namespace C12
 open Model
